@@ -88,6 +88,9 @@ fn main() {
 			let w: usize = args[4].parse().unwrap_or(4);
 			std::process::exit(checks::digests(&args[2], seed, runs, w));
 		}
+		"capi-worker" => {
+			std::process::exit(jrsim::capi::worker_main(&args[2], &args[3]));
+		}
 		"log" => {
 			let run: u64 = args.get(3).and_then(|s| s.parse().ok()).unwrap_or(0);
 			let tier = if args.get(4).map(String::as_str) == Some("thorough") { Tier::Thorough } else { Tier::Quick };
